@@ -203,11 +203,12 @@ STOK2CALL = {"s": "SStep", "y": "SSynchronize", "v": "SSave", "c": "SCopy", "e":
 MTOK2CALL = {"s": "MStep", "y": "MSync", "v": "MNop", "c": "MNop", "e": "MNop", "g": "MNop"}
 
 
-def gen_calls(rng, maxlen, flags=False, integrate=True):
+def gen_calls(rng, maxlen, flags=False, integrate=True, exact=False):
     n = rng.randint(3, maxlen); out = []
     for _ in range(n):
         r = rng.random()
-        if r < 0.4: out.append("s")
+        if r < 0.07 and exact: out.append("x%d" % rng.randint(0, 3))
+        elif r < 0.4: out.append("s")
         elif r < 0.55: out.append("y")
         elif r < 0.63 and integrate: out.append("i%d" % rng.randint(1, 3))
         elif r < 0.71 and flags: out.append(rng.choice(["Fs0", "Fs1", "Fk0", "Fk1", "Fr"]))
@@ -228,7 +229,7 @@ def gen_whfast(rng, maxlen):
     safe = rng.choice([0, 0, 1]); keep = rng.choice([0, 1]) if safe == 0 else rng.choice([0, 0, 0, 1])
     ok = not ((var and coord != 0) or (kernel != 0 and coord != 0) or (var and kernel != 0) or (corr and coord not in (0, 3))
               or corr not in (0, 3, 5, 7, 11, 17))
-    calls = gen_calls(rng, maxlen, flags=ok, integrate=ok)
+    calls = gen_calls(rng, maxlen, flags=ok, integrate=ok, exact=ok)
     # reb_simulation_integrate returns at once while an error message is pending (keep_unsynchronized with safe_mode
     # reports one at every step and the driver never pops it): no integrate calls from the first such moment on
     s_, k_, poisoned, kept = safe, keep, False, []
@@ -238,7 +239,7 @@ def gen_whfast(rng, maxlen):
         elif t == "Fk0": k_ = 0
         elif t == "Fk1": k_ = 1
         if s_ and k_: poisoned = True
-        if t.startswith("i") and poisoned: continue
+        if t[0] in "ix" and poisoned: continue
         kept.append(t)
     calls = kept or ["s"]
     dt = rng.choice([0.125, 0.07, -0.05, 0.2])
@@ -249,7 +250,7 @@ def gen_whfast(rng, maxlen):
 def gen_saba(rng, maxlen, T):
     typ = rng.choice(list(range(10)) + [0x100, 0x101, 0x102, 0x103, 0x200, 0x201, 0x202, 0x203])
     safe = rng.choice([0, 0, 1]); keep = rng.choice([0, 1]) if safe == 0 else 0
-    calls = gen_calls(rng, maxlen)      # incl. synchronize / integrate before the first step (once a NULL dereference; see probes)
+    calls = gen_calls(rng, maxlen, exact=True)      # incl. synchronize / integrate before the first step (once a NULL dereference; see probes)
     return {"integ": "saba", "type": typ, "safe": safe, "keep": keep, "dt": rng.choice([0.125, 0.07, -0.05]), "calls": calls}
 
 
@@ -266,6 +267,37 @@ def b(x):
     return "true" if x else "false"
 
 
+def exact_dts(c):
+    """the shortened last step of every x<N> call: dt' = tmax - t with tmax = t + (N + 0.5)*dt, the time being advanced
+    exactly as the integrators do it (WHFast: t += dt/2 twice per step; SABA: t += dt)"""
+    t = 0.0; dt = c["dt"]; out = {}
+    def adv(t, h):
+        if c["integ"] == "whfast": return (t + h / 2.) + h / 2.
+        return t + h
+    for k, tok in enumerate(c["calls"]):
+        if tok == "s":
+            if c.get("ok", True): t = adv(t, dt)
+        elif tok[0] == "i":
+            for _ in range(int(tok[1:])): t = adv(t, dt)
+        elif tok[0] == "x":
+            n = int(tok[1:]); tmax = t + (n + 0.5) * dt
+            for _ in range(n): t = adv(t, dt)
+            d2 = tmax - t; out[k] = d2; t = adv(t, d2)
+    return out
+
+
+def wcall(c, k, tok, xd):
+    if tok[0] == "x": return "WXExact %d %s" % (int(tok[1:]), vlib.fhex(xd[k]))
+    if tok[0] == "i": return "WX (Integrate %d)" % int(tok[1:])
+    return "WX (%s)" % TOK2CALL[tok]
+
+
+def scall(c, k, tok, xd):
+    if tok[0] == "x": return "SXExact %d %s" % (int(tok[1:]), vlib.fhex(xd[k]))
+    if tok[0] == "i": return "SX (SIntegrate %d)" % int(tok[1:])
+    return "SX %s" % STOK2CALL[tok]
+
+
 def coq_case(c, per_call, flags, T):
     """per_call: list of canonical event lists (or None = do not compare the trace of this call); flags: list of lists"""
     nflags = {"whfast": 4, "saba": 4, "mercurius": 3, "eos": 2}[c["integ"]]
@@ -275,14 +307,16 @@ def coq_case(c, per_call, flags, T):
     if c["integ"] == "whfast":
         cfg = ("{| w_safe := %s; w_keep := %s; w_kernel := %s; w_corr := %d; w_corr2 := %s; w_coord := %s; w_var := %s |}"
                % (b(c["safe"]), b(c["keep"]), KERNELS[c["kernel"]], c["corr"], b(c["corr2"]), COORDS[c["coord"]], b(c["var"])))
-        calls = "[" + "; ".join("Integrate %d" % int(t[1:]) if t.startswith("i") else TOK2CALL[t] for t in c["calls"]) + "]"
+        xd = exact_dts(c)
+        calls = "[" + "; ".join(wcall(c, k, t, xd) for k, t in enumerate(c["calls"])) + "]"
         return "(w_bad %s %s %s %s)" % (dt, cfg, calls, exp)
     if c["integ"] == "saba":
         lo = c["type"] % 0x100
         cfg = ("{| s_safe := %s; s_keep := %s; s_corr_on := %s; s_stages := %d; s_c := %s; s_d := %s; s_cc := %s; s_ok := true |}"
                % (b(c["safe"]), b(c["keep"]), b(c["type"] >= 0x100), T["stages"][c["type"]], vlib.flist(T["c"][lo]), vlib.flist(T["d"][lo]),
                   vlib.fhex(T["cc"][lo] if lo < 4 else 0.0)))
-        calls = "[" + "; ".join("SIntegrate %d" % int(t[1:]) if t.startswith("i") else STOK2CALL[t] for t in c["calls"]) + "]"
+        xd = exact_dts(c)
+        calls = "[" + "; ".join(scall(c, k, t, xd) for k, t in enumerate(c["calls"])) + "]"
         return "(s_bad %s %s %s %s)" % (dt, cfg, calls, exp)
     calls = "[" + "; ".join(MTOK2CALL[t] for t in c["calls"]) + "]"
     if c["integ"] == "mercurius":
@@ -422,6 +456,61 @@ def probes(ctx, libdir):
         os.remove(path)
 
 
+# ------------------------------------------------------------------------------------------ WHFast512 flags (AVX512 build)
+W512 = r'''
+import sys, json, random, warnings, os, tempfile
+warnings.simplefilter("ignore")
+import rebound
+rng = random.Random(int(sys.argv[1])); n = int(sys.argv[2]); out = []
+for _ in range(n):
+    keep = rng.choice([0, 1]); gr = rng.choice([0, 1])
+    sim = rebound.Simulation(); sim.add(m=1.0)
+    for k in range(8): sim.add(m=1e-5, a=1.0 + 0.4 * k, e=0.02, f=k)
+    sim.move_to_com(); sim.integrator = "whfast512"; sim.dt = 0.05; sim.exact_finish_time = 0
+    sim.ri_whfast512.keep_unsynchronized = keep; sim.ri_whfast512.gr_potential = gr
+    calls = []; flags = []
+    for _ in range(rng.randint(3, 14)):
+        r = rng.random()
+        if r < 0.4: c = "s"; sim.steps(1)
+        elif r < 0.6: c = "y"; sim.synchronize()
+        elif r < 0.7:
+            k = rng.randint(1, 3); c = "i%d" % k; sim.integrate(sim.t + (k - 0.5) * sim.dt, exact_finish_time=0)
+        elif r < 0.8: c = "c"; sim.copy()
+        elif r < 0.9: c = "e"; sim.energy()
+        else:
+            c = "v"; fn = os.path.join(tempfile.gettempdir(), "c09x_%d.bin" % os.getpid()); sim.save_to_file(fn, delete_file=True); os.remove(fn)
+        calls.append(c); flags.append(int(sim.ri_whfast512.is_synchronized))
+    out.append({"keep": keep, "gr": gr, "calls": calls, "flags": flags})
+print("W512 " + json.dumps(out))
+'''
+
+
+def w512_flags(ctx, libavx):
+    with tempfile.NamedTemporaryFile("w", suffix=".py", delete=False) as f:
+        f.write(W512); path = f.name
+    try:
+        r = vlib.run_py(libavx, path, [ctx.seed, ctx.scale(40, 300)], timeout=300)
+    finally:
+        os.remove(path)
+    m = re.search(r"^W512 (.*)$", r.stdout, re.M)
+    if not m:
+        ctx.obligation("correspondence:C09 WHFast512 flags (AVX512 build)", False, (r.stdout + r.stderr)[-800:]); return
+    cases = json.loads(m.group(1))
+    X = {"s": "XStep", "y": "XSync", "c": "XNop", "e": "XNop", "v": "XNop"}
+    body = ("From Coq Require Import ZArith List Bool PrimFloat.\nFrom RV Require Import Common.Num Common.FloatNum C09.Model C09.Run.\n"
+            "Import ListNotations.\n" +
+            "".join("Eval vm_compute in (x_bad %s %s [%s] [%s]).\n" % (
+                b(c["keep"]), b(c["gr"]), "; ".join("XIntegrate %s" % t[1:] if t[0] == "i" else X[t] for t in c["calls"]),
+                "; ".join(b(f) for f in c["flags"])) for c in cases))
+    ok, out = vlib.coq_eval("c09_w512", body)
+    res = re.findall(r"=\s*(\[[^\]]*\])\s*:\s*list nat", out, re.S)
+    bad = [(c, r_) for c, r_ in zip(cases, res) if r_.strip() != "[]"]
+    for c in cases: ctx.case(key=("w512flags", c["keep"], c["gr"], len(c["calls"])))
+    ctx.obligation("correspondence:C09 WHFast512 is_synchronized after every API call (AVX512 production build) == model, %d call sequences" % len(cases),
+                   ok and len(res) == len(cases) and not bad, str(bad[:3]) + out[-300:] if (bad or not ok) else "")
+    if ok and not bad: ctx.traces += len(cases)
+
+
 # ------------------------------------------------------------------------------------------ searcher
 def search(ctx, libdir, variant):
     out = os.path.join(vlib.BUILD, "c09_search_%s_%d.json" % (variant, os.getpid()))
@@ -462,7 +551,9 @@ def run(ctx):
         pass
     if have_avx:
         try:
-            search(ctx, ctx.lib("avx512"), "avx512")
+            libavx = ctx.lib("avx512")
+            w512_flags(ctx, libavx)
+            search(ctx, libavx, "avx512")
         except RuntimeError as e:
             ctx.obligation("searcher:C09 AVX512 build", False, str(e)[-800:])
     else:
